@@ -402,7 +402,7 @@ func malformed(g *GenCtx) {
 	for _, l := range []string{
 		"seal", "seal a", "seal a 00", "seal c 00 00", "seal a zz 00", "seal a 00 0", "open a 00", "open a 0g 00",
 		"openl a 00", "openl a 00 x", "openl c 00 -", "keydiff 00 01 00", "keydiff 0 01 00 00", "kra 8 0 00",
-		"vatte 8 0", "dump k", "new", "new sanse", "new kv", "new foo 00", "wrap a 00 00", "SEAL a 00 00",
+		"vatte 8 0", "dump k", "wrap a 00 00", "SEAL a 00 00",
 	} {
 		g.Op("%s", l)
 	}
@@ -418,6 +418,10 @@ func malformed(g *GenCtx) {
 	}
 	g.Op("kra 8 2 01")
 	g.Op("vatte 64 0")
+	// malformed `new` lines: each is a case of its own
+	for _, l := range []string{"new", "new sanse", "new kv", "new foo 00", "new sanse zz", "new kv 0", "new sanse 00 00"} {
+		g.Op("%s", l)
+	}
 }
 
 // ---------------------------------------------------------------- run
